@@ -540,20 +540,34 @@ pub fn check_image(bytes: &[u8], obs: &Obs, dead_tokens: &[String]) -> Result<()
     if obs.db_codepage != db.codepage() {
         return Err(finding("image/codepage", format!("pool header says code page {}, API reports {}", db.pool.codepage_id, obs.db_codepage)));
     }
-    // no text of deleted rows / dropped tables remains in the string data
+    // no text of deleted rows / dropped tables remains in the string data.  The stream is the plain
+    // concatenation of the entries (lengths sum to its size, checked above), so the search is done per
+    // entry: adjacent entries must not be read as one text.
     if !dead_tokens.is_empty() {
-        let data = db.table_streams.get("_StringData").cloned().unwrap_or_default();
-        let hay = String::from_utf8_lossy(&data).to_lowercase();
-        for t in dead_tokens {
-            // token followed by a non-digit (so t1x1 does not match t1x12)
-            let mut from = 0;
-            while let Some(p) = hay[from..].find(t.as_str()) {
-                let end = from + p + t.len();
-                let next_is_digit = hay.as_bytes().get(end).map(|b| b.is_ascii_digit()).unwrap_or(false);
-                if !next_is_digit {
-                    return Err(finding("image/leftover-text", format!("text of deleted data ({}…) is still present in _StringData", t)));
+        for (i, e) in db.pool.entries.iter().enumerate() {
+            if e.len == 0 {
+                continue;
+            }
+            let hay = e.text.to_lowercase();
+            for t in dead_tokens {
+                let mut from = 0;
+                while let Some(p) = hay[from..].find(t.as_str()) {
+                    let end = from + p + t.len();
+                    let next_is_digit = hay.as_bytes().get(end).map(|b| b.is_ascii_digit()).unwrap_or(false);
+                    if !next_is_digit {
+                        return Err(finding(
+                            "image/leftover-text",
+                            format!(
+                                "text of deleted data ({}…) is still present in _StringData: pool entry {} (refcount {}) holds {:?}",
+                                t,
+                                i + 1,
+                                e.refcount,
+                                e.text.chars().take(40).collect::<String>()
+                            ),
+                        ));
+                    }
+                    from = end;
                 }
-                from = end;
             }
         }
     }
